@@ -89,8 +89,9 @@ def setup_packages(root):
 
 
 class Program:
-    def __init__(self, root):
+    def __init__(self, root, premodules=None):
         self.root = root
+        self.premodules = premodules
         self.modules = {}      # modname -> ast.Module
         self.paths = {}        # modname -> path relative to root
         self.sources = {}
@@ -113,7 +114,7 @@ class Program:
     def load(self, root):
         pkgs = setup_packages(root)
         self.packages = pkgs
-        for pkg in pkgs:
+        for pkg in ([] if self.premodules else pkgs):
             d = os.path.join(root, *pkg.split('.'))
             if not os.path.isdir(d):
                 raise AnalysisError('package directory missing: %s' % d)
@@ -134,6 +135,21 @@ class Program:
                     for par in ast.walk(tree):
                         for ch in ast.iter_child_nodes(par):
                             self.parent[id(ch)] = par
+        if self.premodules:
+            # second phase: modules already parsed, inlined and normalised by a first Program (record types de-sugared)
+            first = self.premodules
+            self.modules, self.paths, self.sources = first.modules, first.paths, first.sources
+            self.inliner, self.normalizer = first.inliner, first.normalizer
+            for tree in self.modules.values():
+                ast.fix_missing_locations(tree)
+                for par in ast.walk(tree):
+                    for ch in ast.iter_child_nodes(par):
+                        self.parent[id(ch)] = par
+        else:
+            self._inline_and_normalize()
+        self._build_tables()
+
+    def _inline_and_normalize(self):
         # helpers introduced after the pinned vocabulary (extract-method refactorings) are inlined back into their callers
         from .inline import Inliner, load_vocabulary
         self.inliner = Inliner(self.modules, load_vocabulary()).run()
@@ -141,12 +157,14 @@ class Program:
         self.normalizer = Normalizer(self.modules).run()
         for tree in self.modules.values():
             ast.fix_missing_locations(tree)
-        if self.inliner.inlined_sites or self.normalizer.changes:
+        if self.inliner.inlined_sites or self.normalizer.changes or getattr(self.inliner, 'renamed', None):
             self.parent = {}
             for tree in self.modules.values():
                 for par in ast.walk(tree):
                     for ch in ast.iter_child_nodes(par):
                         self.parent[id(ch)] = par
+
+    def _build_tables(self):
         for mod, tree in self.modules.items():
             for n in tree.body:
                 if isinstance(n, ast.ClassDef):
@@ -176,6 +194,37 @@ class Program:
                     src = self.resolve_mod(mod, n.module, n.level)
                     for a in n.names:
                         self.modglobals[mod][a.asname or a.name] = ('import', src, a.name)
+        self.register_module_values()
+
+    def register_module_values(self):
+        """module-level names bound to the result of a call of something imported from outside the package (struct.Struct(...),
+        re.compile(...)) are external objects; `X = namedtuple('X', fields)` is a record type whose instances are typed as
+        positional tuples with field names"""
+        for mod, tree in self.modules.items():
+            for n in tree.body:
+                if not (isinstance(n, ast.Assign) and len(n.targets) == 1 and isinstance(n.targets[0], ast.Name) and isinstance(n.value, ast.Call)):
+                    continue
+                name, c = n.targets[0].id, n.value
+                root = c.func
+                while isinstance(root, ast.Attribute):
+                    root = root.value
+                if not isinstance(root, ast.Name):
+                    continue
+                g = self.modglobals[mod].get(root.id)
+                if g is None or g[0] not in ('extmod', 'import') or (g[0] == 'import' and g[1] in self.modules):
+                    continue
+                fname = ast.unparse(c.func).split('.')[-1]
+                if fname == 'namedtuple' and len(c.args) >= 2:
+                    fields = None
+                    a1 = c.args[1]
+                    if isinstance(a1, ast.Constant) and isinstance(a1.value, str):
+                        fields = tuple(a1.value.replace(',', ' ').split())
+                    elif isinstance(a1, (ast.List, ast.Tuple)) and all(isinstance(x, ast.Constant) for x in a1.elts):
+                        fields = tuple(x.value for x in a1.elts)
+                    if fields:
+                        self.modglobals[mod][name] = ('ntclass', name, fields)
+                        continue
+                self.modglobals[mod][name] = ('ext', ast.unparse(c.func) + '()')
 
     def resolve_mod(self, cur, module, level):
         if level == 0:
@@ -301,6 +350,9 @@ class Program:
                 out |= a[1]
             elif a[0] == 'tuple':
                 for c in a[1]:
+                    out |= c
+            elif a[0] == 'nt':
+                for c in a[2]:
                     out |= c
             elif a == BYTES:
                 out.add(BYTES)
@@ -453,6 +505,9 @@ class Program:
                 out |= a[2]
             elif a[0] == 'list':
                 out |= ({a} if isinstance(e.slice, ast.Slice) else a[1])
+            elif a[0] == 'nt':
+                for c in a[2]:
+                    out |= c
             elif a[0] == 'tuple':
                 if isinstance(e.slice, ast.Constant) and isinstance(e.slice.value, int) \
                         and -len(a[1]) <= e.slice.value < len(a[1]):
@@ -483,7 +538,10 @@ class Program:
                 out |= self.fields[(a[1], e.attr)]
             elif a[0] == 'ext':
                 out.add(cap(('ext', a[1] + '.' + e.attr)))
-            elif a[0] in ('dict', 'list', 'set', 'bytes', 'str', 'iter'):
+            elif a[0] == 'nt':
+                if e.attr in a[1]:
+                    out |= a[2][a[1].index(e.attr)]
+            elif a[0] in ('dict', 'list', 'set', 'bytes', 'str', 'iter') or (a[0] == 'tuple' and e.attr in ('pop', 'popleft')):
                 out.add(('bmeth', a, e.attr))
         return FS(out)
 
@@ -520,12 +578,24 @@ class Program:
                 targets.add(a[1])
                 self.bind(a[1], argt, kwt, e, skip_self=False)
                 out |= self.result_of(a[1])
+            elif a[0] == 'ntclass':
+                kinds.add('ext')
+                vals = list(argt) + [EMPTY] * (len(a[2]) - len(argt))
+                for k_, t_ in kwt.items():
+                    if k_ in a[2]:
+                        vals[a[2].index(k_)] = t_
+                out.add(('nt', a[2], tuple(vals[:len(a[2])])))
             elif a[0] == 'bmeth':
                 kinds.add('bmeth')
                 out |= self.bmeth_call(u, f, a, argt)
             elif a[0] == 'ext':
                 kinds.add('ext')
-                out |= self.ext_call(a[1], argt)
+                if a[1] in ('heapq.heappush', 'heapq.heappushpop', 'heapq.heapreplace') and len(e.args) >= 2:
+                    self.widen(u, e.args[0], T(('list', argt[1])))
+                if a[1] in ('heapq.heappop', 'heapq.heappushpop', 'heapq.heapreplace') and argt:
+                    out |= self.elem(argt[0])
+                else:
+                    out |= self.ext_call(a[1], argt)
         for tgt in targets:
             if tgt not in self.calls[u]:
                 self.calls[u].add(tgt)
@@ -566,6 +636,11 @@ class Program:
             return T(('dict', EMPTY, v))
         if name == 'collections.Counter':
             return T(('dict', EMPTY, T(INT)))
+        if name in ('itertools.chain', 'chain', 'itertools.chain.from_iterable'):
+            t = EMPTY
+            for a in argt:
+                t |= self.elem(a)
+            return T(('iter', t))
         return T(('ext', name + '()'))
 
     def builtin_call(self, u, name, e, argt):
@@ -606,6 +681,11 @@ class Program:
                         if x[0] == 'dict':
                             self.widen(u, f.value, T(('dict', x[1], x[2])))
                 return EMPTY
+        if base[0] == 'tuple' and name in ('pop', 'popleft'):
+            t = EMPTY
+            for c_ in base[1]:
+                t |= c_
+            return t
         if base[0] in ('list', 'set'):
             if name in ('append', 'add'):
                 if argt:
@@ -782,6 +862,115 @@ class Program:
         self.rounds = rounds
         return self
 
+    def desugar_records(self):
+        """second-phase normalisation that needs types: a private record type (`_Frame = namedtuple('_Frame', 'block lru')`) is
+        a tuple with names; constructor calls become tuple displays and field reads become constant subscripts, so that the rules
+        see the tuples they know.  Returns the number of rewritten nodes (the caller re-solves when it is not 0)."""
+        n = 0
+
+        def replace(old, new):
+            par = self.parent.get(id(old))
+            if par is None:
+                return False
+            for field, val in ast.iter_fields(par):
+                if val is old:
+                    setattr(par, field, ast.copy_location(new, old))
+                    return True
+                if isinstance(val, list):
+                    for i, x in enumerate(val):
+                        if x is old:
+                            val[i] = ast.copy_location(new, old)
+                            return True
+            return False
+        # field reads first (their base types were computed on the unmodified tree)
+        for u in self.units:
+            for x in list(self.own(u, ast.Attribute)):
+                if not isinstance(x.ctx, ast.Load):
+                    continue
+                bt = self.ev(u, x.value)
+                nts = [a for a in bt if a[0] == 'nt']
+                if nts and len(nts) == len(bt) and all(x.attr in a[1] for a in nts) and len({a[1].index(x.attr) for a in nts}) == 1:
+                    idx = nts[0][1].index(x.attr)
+                    if replace(x, ast.Subscript(value=x.value, slice=ast.Constant(value=idx), ctx=ast.Load())):
+                        n += 1
+        for (u, e, targets, kinds) in list(self.callsites.values()):
+            ft = self.ev(u, e.func)
+            ncs = [a for a in ft if a[0] == 'ntclass']
+            if ncs and len(ncs) == len(ft) and not any(isinstance(a, ast.Starred) for a in e.args):
+                fields = ncs[0][2]
+                vals = list(e.args) + [None] * (len(fields) - len(e.args))
+                okk = True
+                for k in e.keywords:
+                    if k.arg in fields and vals[fields.index(k.arg)] is None:
+                        vals[fields.index(k.arg)] = k.value
+                    else:
+                        okk = False
+                if okk and all(v is not None for v in vals[:len(fields)]) and len(vals) == len(fields):
+                    if replace(e, ast.Tuple(elts=vals, ctx=ast.Load())):
+                        n += 1
+        # a local bound once to a record / tuple of known arity and only ever read through constant subscripts is the unpacked tuple
+        for u in self.units:
+            binds = {}
+            for a in self.own(u, ast.Assign):
+                if len(a.targets) == 1 and isinstance(a.targets[0], ast.Name):
+                    binds.setdefault(a.targets[0].id, []).append(a)
+            for name, defs in binds.items():
+                if len(defs) != 1 or name in u.params:
+                    continue
+                a = defs[0]
+                t = self.ev(u, a.value)
+                ar = {len(x[2]) if x[0] == 'nt' else len(x[1]) for x in t if x[0] in ('nt', 'tuple')}
+                if len(ar) != 1 or any(x[0] not in ('nt', 'tuple') for x in t):
+                    continue
+                k = list(ar)[0]
+                names = [x for x in self.own(u, ast.Name) if x.id == name]
+                stores = [x for x in names if isinstance(x.ctx, ast.Store)]
+                loads = [x for x in names if isinstance(x.ctx, ast.Load)]
+                subs = []
+                for l in loads:
+                    par = self.parent.get(id(l))
+                    if isinstance(par, ast.Subscript) and par.value is l and isinstance(par.slice, ast.Constant) and isinstance(par.slice.value, int) \
+                            and 0 <= par.slice.value < k and isinstance(par.ctx, ast.Load):
+                        subs.append(par)
+                if len(stores) != 1 or len(subs) != len(loads) or not loads:
+                    continue
+                parts = ['_u_%s_%d' % (name, i) for i in range(k)]
+                a.targets[0] = ast.copy_location(ast.Tuple(elts=[ast.Name(id=p_, ctx=ast.Store()) for p_ in parts], ctx=ast.Store()), a.targets[0])
+                for sub in subs:
+                    replace(sub, ast.Name(id=parts[sub.slice.value], ctx=ast.Load()))
+                n += 1
+            # the same for a loop variable
+            for f in self.own(u, ast.For):
+                if not isinstance(f.target, ast.Name):
+                    continue
+                name = f.target.id
+                t = self.elem(self.ev(u, f.iter))
+                ar = {len(x[2]) if x[0] == 'nt' else len(x[1]) for x in t if x[0] in ('nt', 'tuple')}
+                if len(ar) != 1 or any(x[0] not in ('nt', 'tuple') for x in t):
+                    continue
+                k = list(ar)[0]
+                names = [x for x in self.own(u, ast.Name) if x.id == name]
+                stores = [x for x in names if isinstance(x.ctx, ast.Store)]
+                loads = [x for x in names if isinstance(x.ctx, ast.Load)]
+                subs = []
+                for l in loads:
+                    par = self.parent.get(id(l))
+                    if isinstance(par, ast.Subscript) and par.value is l and isinstance(par.slice, ast.Constant) and isinstance(par.slice.value, int) \
+                            and 0 <= par.slice.value < k and isinstance(par.ctx, ast.Load):
+                        subs.append(par)
+                if len(stores) != 1 or len(subs) != len(loads) or not loads:
+                    continue
+                parts = ['_u_%s_%d' % (name, i) for i in range(k)]
+                f.target = ast.copy_location(ast.Tuple(elts=[ast.Name(id=p_, ctx=ast.Store()) for p_ in parts], ctx=ast.Store()), f.target)
+                for sub in subs:
+                    replace(sub, ast.Name(id=parts[sub.slice.value], ctx=ast.Load()))
+                n += 1
+        if n:
+            from .inline import _collapse_aliases
+            for u in self.units:
+                _collapse_aliases(u.node, prefix=r'_u_')
+        return n
+
     # ------------------------------------------------------------------ queries for rules
     def targets(self, call):
         cs = self.callsites.get(id(call))
@@ -840,7 +1029,7 @@ class Program:
                 rt = self.ev(u, f.value)
                 # known-external receivers: typed as ext / builtin containers / scalars only
                 if rt and all(a[0] in ('ext', 'dict', 'list', 'set', 'iter', 'tuple', 'bytes', 'str', 'int',
-                                       'none', 'bool', 'float', 'exttuple', 'extclass') for a in rt):
+                                       'none', 'bool', 'float', 'exttuple', 'extclass', 'nt', 'ntclass') for a in rt):
                     continue
                 missed.append('%s:%d %s (receiver type: %s)' % (self.path_of(u), e.lineno, ast.unparse(f),
                                                                fmt(rt)))
